@@ -61,7 +61,7 @@ def lower_lemmas(ctx, x):
     lx = lower(x)
     ctx.assume(lower(lx) == lx)
     ctx.assume(z3.Length(lx) == z3.Length(x))
-    for c in ":[]@/?#":
+    for c in ":[]@/?#=;":
         ctx.assume(z3.Contains(lx, SV(c)) == z3.Contains(x, SV(c)))
     ctx.assume(z3.PrefixOf(SV("v"), lx) == z3.Or(z3.PrefixOf(SV("v"), x), z3.PrefixOf(SV("V"), x)))
 
